@@ -398,3 +398,160 @@ Qed.
 
 Lemma crun_CellInv bk fx cap ops : CellInv (c_core (fst (crun bk fx (cinit cap) ops))).
 Proof. apply (gt_inv _ _ (crun_GT bk fx ops (cinit cap) (ci_init cap))). Qed.
+
+(* ---------------------------------------------------------------- metadata over histories *)
+(* the value v written to (k, s) of the incarnation with cell cl is still what is stored there *)
+Definition md_holds (kc : core) (k : key) (s : N) (cl : N) (v : list N) : Prop :=
+  cell_of kc cl = None \/
+  exists b, assoc k (k_blobs kc) = Some b /\ b_cell b = cl /\ assoc s (b_mds b) = Some v.
+
+Lemma md_holds_step bk fx c o k s cl v :
+  CellInv (c_core c) -> cl < k_next (c_core c) -> md_writes o k s = false ->
+  md_holds (c_core c) k s cl v -> md_holds (c_core (fst (cstep bk fx c o))) k s cl v.
+Proof.
+  intros HI Hlt Hw [Hn|[b [Hb [Hc Hm]]]].
+  - left. apply (gt_nil _ _ (cstep_GT bk fx c o HI)); auto.
+  - destruct (md_frame bk fx c o k s b Hw Hb) as [Hgone|[b' [Hb' [Hc' Hm']]]].
+    + left. destruct (gt_fwd _ _ (cstep_GT bk fx c o HI) _ _ Hb) as [Hn|[b' [Hb' _]]]; [congruence|congruence].
+    + right. exists b'. repeat split; auto; congruence.
+Qed.
+
+Lemma md_holds_run bk fx k s cl v : forall ops c,
+  CellInv (c_core c) -> cl < k_next (c_core c) -> forallb (fun o => negb (md_writes o k s)) ops = true ->
+  md_holds (c_core c) k s cl v -> md_holds (c_core (fst (crun bk fx c ops))) k s cl v.
+Proof.
+  induction ops as [|o t IH]; intros c HI Hlt Hall H; cbn [crun]; auto.
+  cbn [forallb] in Hall. apply andb_true_iff in Hall. destruct Hall as [Ho Ht]. apply negb_true_iff in Ho.
+  pose proof (md_holds_step bk fx c o k s cl v HI Hlt Ho H) as H1.
+  pose proof (cstep_GT bk fx c o HI) as G.
+  destruct (cstep bk fx c o) as [c1 r]. cbn [fst] in *.
+  specialize (IH c1 (gt_inv _ _ G)). destruct (crun bk fx c1 t) as [c2 rs]. cbn [fst] in *.
+  apply IH; auto. pose proof (gt_next _ _ G). lia.
+Qed.
+
+(* metadata reads return the last value set: after a successful SetMd k _ s v, as long as no
+   operation writes (k, s) (SetMd/DelMd/WriteAtMd on it, or completion of k when s is immovable),
+   a read returns v for as long as the same incarnation of k is in the store *)
+Theorem md_last_write_history bk fx cap ops1 k sc s v ops2 :
+  let c0 := fst (crun bk fx (cinit cap) ops1) in
+  snd (cstep bk fx c0 (SetMd k sc s v)) = OOk ->
+  forallb (fun o => negb (md_writes o k s)) ops2 = true ->
+  let c1 := fst (cstep bk fx c0 (SetMd k sc s v)) in
+  let c2 := fst (crun bk fx c1 ops2) in
+  incarnation (c_core c2) k = incarnation (c_core c1) k ->
+  snd (cstep bk fx c2 (GetMd k SAny s)) = OBytes v.
+Proof.
+  intros c0 Hok Hall c1 c2 Hinc.
+  pose proof (crun_CellInv bk fx cap ops1) as HI0. fold c0 in HI0.
+  pose proof (cstep_GT bk fx c0 (SetMd k sc s v) HI0) as G1. fold c1 in G1.
+  destruct (md_set bk fx c0 k sc s v Hok) as [Hmd _]. fold c1 in Hmd.
+  unfold md_of in Hmd. destruct (assoc k (k_blobs (c_core c1))) as [b1|] eqn:Eb1; [|discriminate Hmd].
+  pose proof (gt_inv _ _ G1) as HI1.
+  assert (H1 : md_holds (c_core c1) k s (b_cell b1) v) by (right; exists b1; auto).
+  pose proof (md_holds_run bk fx k s (b_cell b1) v ops2 c1 HI1 (ci_fresh _ HI1 _ _ Eb1) Hall H1) as H2. fold c2 in H2.
+  unfold incarnation in Hinc. rewrite Eb1 in Hinc.
+  destruct (assoc k (k_blobs (c_core c2))) as [b2|] eqn:Eb2; [|discriminate Hinc]. inversion Hinc as [Hcell].
+  pose proof (gt_inv _ _ (crun_GT bk fx ops2 c1 HI1)) as HI2. fold c2 in HI2.
+  destruct H2 as [Hn|[b [Hb [Hc Hm]]]].
+  - destruct (ci_live _ HI2 _ _ Eb2) as [d Hd]. rewrite Hcell in Hd. congruence.
+  - rewrite md_get. rewrite (lookup_any _ _ _ Eb2). unfold md_of. rewrite Eb2. rewrite Hb in Eb2. inversion Eb2; subst. now rewrite Hm.
+Qed.
+
+(* ---------------------------------------------------------------- who can change the content of a cell *)
+Definition cell_mono (kc kc' : core) (cl : N) : Prop := cell_of kc' cl = cell_of kc cl \/ cell_of kc' cl = None.
+
+Lemma cell_mono_refl kc cl : cell_mono kc kc cl. Proof. now left. Qed.
+
+(* composition needs: nil stays nil in the second part *)
+Lemma cell_mono_trans a b c cl : cell_mono a b cl -> cell_mono b c cl -> cell_mono a c cl.
+Proof.
+  intros [H1|H1] [H2|H2]; unfold cell_mono; rewrite ?H2, ?H1; auto.
+Qed.
+
+Lemma cell_mono_drop k kc cl : cell_mono kc (drop_blob k kc) cl.
+Proof.
+  destruct (assoc k (k_blobs kc)) as [b|] eqn:E; [|rewrite (drop_blob_absent _ _ E); apply cell_mono_refl].
+  unfold cell_mono. rewrite (cell_of_drop _ _ _ _ E). destruct (cl =? b_cell b); auto.
+  right. now destruct (assoc (b_cell b) (k_cells kc)).
+Qed.
+
+Lemma cell_mono_add k sz d kc cl : CellInv kc -> cl < k_next kc -> cell_mono kc (add_blob k sz d kc) cl.
+Proof.
+  intros HI Hlt. left. rewrite cell_of_add_blob by (apply (ci_cells _ HI); lia).
+  destruct (N.eqb_spec cl (k_next kc)); [lia|reflexivity].
+Qed.
+
+Lemma cell_mono_set_cell c v kc cl : c <> cl -> cell_mono kc (set_cell c v kc) cl.
+Proof. intros H. left. rewrite cell_of_set_cell. destruct (N.eqb_spec cl c); [congruence|reflexivity]. Qed.
+
+Lemma c_evict_cell_mono fx space cl : forall q kc size, cell_mono kc (fst (fst (fst (c_evict fx q kc size space)))) cl.
+Proof.
+  induction q as [|k t IH]; intros kc size; cbn [c_evict].
+  - destruct (c_fits fx (k_cap kc) size space); apply cell_mono_refl.
+  - destruct (c_fits fx (k_cap kc) size space); [apply cell_mono_refl|].
+    eapply cell_mono_trans; [apply cell_mono_drop|apply IH].
+Qed.
+
+Lemma c_clean_loop_cell_mono target cl : forall keys c, cell_mono (c_core c) (c_core (c_clean_loop c target keys)) cl.
+Proof.
+  induction keys as [|k t IH]; intros c; cbn [c_clean_loop]; [apply cell_mono_refl|].
+  destruct (c_size c <=? target); [apply cell_mono_refl|].
+  destruct (assoc k (k_blobs (c_core c))) eqn:E; [|apply IH].
+  eapply cell_mono_trans; [apply (cell_mono_drop k)|apply (IH (c_delete c k b))].
+Qed.
+
+Lemma create_cell_mono bk fx c k sz data cl :
+  CellInv (c_core c) -> cl < k_next (c_core c) -> cell_mono (c_core c) (c_core (fst (c_create bk fx c k sz data))) cl.
+Proof.
+  intros HI Hlt. unfold c_create.
+  destruct (negb (create_supported bk data)); [apply cell_mono_refl|].
+  destruct (assoc k (k_blobs (c_core c))); [apply cell_mono_refl|].
+  pose proof (c_evict_cell_mono fx sz cl (c_queue c) (c_core c) (c_size c)) as HM.
+  pose proof (c_evict_GT fx sz (c_queue c) (c_core c) (c_size c) HI) as HG.
+  destruct (c_evict fx (c_queue c) (c_core c) (c_size c) sz) as [[[kc1 size1] q1] ok]. cbn [fst snd] in *.
+  destruct ok; [|exact HM].
+  assert (Hlt1 : cl < k_next kc1) by (pose proof (gt_next _ _ HG); lia).
+  destruct data as [d|]; cbn [fst c_core].
+  - eapply cell_mono_trans; [exact HM|]. apply cell_mono_add; auto. apply (gt_inv _ _ HG).
+  - eapply cell_mono_trans; [exact HM|]. apply (cell_mono_add k sz [] kc1 cl (gt_inv _ _ HG) Hlt1).
+Qed.
+
+(* a step that is not a write through cell cl leaves cl's content as it is, or nils it *)
+Theorem cell_frame bk fx c o cl :
+  CellInv (c_core c) -> cl < k_next (c_core c) -> writes_cell (c_core c) o cl = false ->
+  cell_mono (c_core c) (c_core (fst (cstep bk fx c o))) cl.
+Proof.
+  intros HI Hlt Hw. unfold cstep.
+  destruct (plain_step bk (c_core c) o) as [[kc1 r]|] eqn:P.
+  { cbn [fst c_core]. unfold plain_step in P.
+    destruct o; cbn in Hw; plain_crush; try apply cell_mono_refl;
+      try (left; reflexivity).
+    all: unfold handle_of in *.
+    all: try (eapply cell_mono_trans; [|left; reflexivity]).
+    all: apply cell_mono_set_cell; intros ->.
+    all: repeat match goal with
+         | H : assoc ?h ?l = _, H' : assoc ?h ?l = _ |- _ => rewrite H in H'; first [discriminate H'|inversion H'; subst; clear H']
+         end.
+    all: try (rewrite N.eqb_refl in Hw; discriminate Hw). }
+  destruct o; cbn in P; try discriminate P; try (destruct bk; discriminate P); clear P; cbn in Hw.
+  - now apply create_cell_mono.
+  - now apply create_cell_mono.
+  - destruct bk; [apply cell_mono_refl|]. destruct (lookup (c_core c) k sc); [left; reflexivity|apply cell_mono_refl].
+  - destruct (lookup (c_core c) k sc); apply cell_mono_refl.
+  - destruct (lookup (c_core c) k sc) as [b|] eqn:L; [|apply cell_mono_refl]. cbn [fst c_core].
+    apply lookup_inl in L. destruct L as [Hb _]. rewrite Hb in Hw. apply N.eqb_neq in Hw.
+    unfold open_write_at. destruct (cell_of (c_core c) (b_cell b)); [|apply cell_mono_refl].
+    destruct data; [apply cell_mono_refl|]. now apply cell_mono_set_cell.
+  - destruct (assoc k (k_blobs (c_core c))); [|apply cell_mono_refl].
+    destruct (b_complete b); [apply cell_mono_refl|left; reflexivity].
+  - destruct (lookup (c_core c) k sc); [|apply cell_mono_refl]. cbn [fst c_core c_delete]. apply cell_mono_drop.
+  - destruct (lookup (c_core c) k sc); [|apply cell_mono_refl]. destruct (b_banned b); [apply cell_mono_refl|left; reflexivity].
+  - destruct (lookup (c_core c) k sc); [|apply cell_mono_refl]. destruct (negb (b_banned b)); [apply cell_mono_refl|left; reflexivity].
+  - destruct bk; [|apply cell_mono_refl].
+    destruct ((pct <? 0) || (100 <=? pct))%Z; [apply cell_mono_refl|].
+    pose proof (c_evict_cell_mono fx (k_cap (c_core c) - clean_target (k_cap (c_core c)) pct) cl (c_queue c) (c_core c) (c_size c)) as HM.
+    destruct (c_evict fx (c_queue c) (c_core c) (c_size c) (k_cap (c_core c) - clean_target (k_cap (c_core c)) pct)) as [[[kc1 size1] q1] ok].
+    cbn [fst snd] in *. destruct ok; [exact HM|].
+    destruct (order_legal kc1 order); [|apply cell_mono_refl]. cbn [fst].
+    eapply cell_mono_trans; [exact HM|]. apply (c_clean_loop_cell_mono _ _ _ (mkc kc1 size1 q1)).
+Qed.
